@@ -283,6 +283,8 @@ func insHistory(id string, rng *rand.Rand, lt *layoutTables, actions []string) M
 				return m
 			}
 			orig := sem(&card)
+			// (rendering the card - String, JSON - is not a way to change it)
+			guard(func() { _ = card.String(); json.Marshal(card); json.Marshal(&card) })
 			clone := card.Clone()
 			pc := sem(&clone)
 			for k := range clone.Doors {
